@@ -473,6 +473,7 @@ def run_fault(pid, tier, seed, replay):
 
 
 def run(pid, tier, seed, replay):
+    REPLAY_MODE[0] = bool(replay)
     if pid == "C25":
         import codeccheck
         return codeccheck.run(pid, tier, seed, replay)
